@@ -23,7 +23,7 @@ from vf.core import MachineryError, exc_record, REPO
 from vf.par import pmap
 
 META = {
-    "ready": False,
+    "ready": True,
     "category": "model_checking",
     "technique": "TLA+ spec of the phases of tools/compiler.py::main (CompilerCli.tla) model-checked by TLC against the declarative error count; every enumerated invocation replayed in-process through tools.compiler.main(argv) on real directory trees",
     "text": "TLC enumerates every invocation within two changes of a plain call (path sets over good / twin / syntax-error / listener-error / non-.mo / empty / missing paths, output directory ok / missing / blocked / default, 0-3 models from good, failing and unknown classes, targets none / sympy / casadi / invalid, 0-2 -O options valid or malformed, -v flags) plus a seeded share of three-change invocations, checks that the operational phase model of main() returns the declarative count (usage errors, else parse-error files or 1 for no files, else failing models; 2 for argument errors) and that each model contributes independently; each invocation is executed through the real main(argv) and its return value / SystemExit code compared; multi-model calls are compared with their one-model calls on the real code.",
